@@ -356,6 +356,17 @@ func (cs *Contracts) loadContractFile(path, pkgPath string) error {
 			g.Name = name
 			g.File, g.Line = path, lineNo
 			cur.Ghost = append(cur.Ghost, g)
+		case "snapshot":
+			// snapshot NAME before|after "<stmt>" | before|after loop N | entry :
+			// remembers the whole state at that point; `at(NAME, expr)` evaluates expr in it
+			sn, r2 := splitWord(rest)
+			g, err := parseGhostStmt(word, r2)
+			if err != nil {
+				return fmt.Errorf("%s:%d: %v", path, lineNo, err)
+			}
+			g.Target = sn
+			g.File, g.Line = path, lineNo
+			cur.Ghost = append(cur.Ghost, g)
 		case "callsite":
 			// callsite Callee#k requires expr
 			w2, r2 := splitWord(rest)
